@@ -1,4 +1,5 @@
 """C06 - unification returns a most general unifier extending prior bindings."""
+import itertools
 from . import unify_common as UC
 from .. import universe as U
 
@@ -9,7 +10,8 @@ BOUNDS = {
     'quick': 'all ordered pairs (A,B) of term shapes of nesting depth <= 1 with size(A)+size(B) <= 3, and <= 4 when both are lists or both complex terms, over leaves '
              '{a, atom of one symbolic letter, symbolic i64, symbolic f64, $V1, $V2, $_, []}, complex f/1 f/2 g/1, lists of <= 3 elements '
              'with no tail / $V3 / $V4 / $_ tail (parser-built node chains; constructor-built for size <= 3); '
-             'plus 12 prior substitutions (each one real unification) x all pairs with size(A)+size(B) <= 3',
+             'plus 12 prior substitutions (each one real unification) x all leaf pairs; plus 5 priors that bind a tail variable to a list ([], [b], [b | $V4], [b, a], [b | $_]) x '
+             '(lists of 1-2 elements ending in that tail variable) x (lists of 1-3 elements with no / variable / `$_` tail), both operand orders',
     'thorough': 'pairs with size(A)+size(B) <= 5 at depth <= 1 and <= 4 at depth 2; 12 single priors x pairs of total size <= 4; '
                 '20 double priors x pairs of total size <= 3',
 }
@@ -53,6 +55,17 @@ def cases(tier, seed):
     tp = U.terms(LEAVES_Q, TAILS, 3, 1, styles=('p',))
     tm = [t for t in U.terms(LEAVES_Q, TAILS, 3, 1, styles=('m',)) if is_m(t) and U.kind(t[2][-1] if t[3] is None else t[3]) != 'list']
     s1 = [t for t in tp if U.size(t) == 1]
+    # tail variables already bound to a list when two lists meet (both operand orders through the pair enumeration)
+    el_a, el_b = [['a'], ['b'], ['v', 1]], [['a'], ['b'], ['v', 2]]
+    la = [['l', 'p', list(c), ['v', 3]] for n in (1, 2) for c in itertools.product(el_a, repeat=n)]
+    lb = [['l', 'p', list(c), tl] for n in (1, 2, 3) for c in itertools.product(el_b, repeat=n) for tl in (None, ['v', 4], ['_'])]
+    if tier == 'quick': lb = [x for x in lb if len(x[2]) < 3 or x[2][2] != ['v', 2]]
+    tail_priors = [(['v', 3], ['e']), (['v', 3], ['l', 'p', [['b']], None]), (['v', 3], ['l', 'p', [['b']], ['v', 4]]), (['v', 3], ['l', 'p', [['b'], ['a']], None]),
+                   (['v', 3], ['l', 'p', [['b']], ['_']])]
+    for p in tail_priors:
+        for a in la:
+            for b in lb:
+                add(a, b, [p]); add(b, a, [p])
     if tier == 'quick':
         for a, b in pairs(tp, 4):
             if U.size(a) + U.size(b) <= 3 or (U.kind(a) == U.kind(b) and U.kind(a) in ('list', 'cplx')): add(a, b)
